@@ -37,7 +37,7 @@ def _alarm(signum, frame):
 BAD = []      # runs of undamaged inputs that crashed or hung (any mode): reported as C19 records
 
 
-def run(text, args, work, name="t.vhd", deep=False, shuffle=None, repeat=False, deep_ends=False, timeout=300):
+def run(text, args, work, name="t.vhd", deep=False, shuffle=None, repeat=False, deep_ends=False, timeout=300, cfg_deep=False):
     """one apply_rules execution on a scratch copy; returns observations.  timeout (s): a run that does not return is
     interrupted (SIGALRM) and reported with status "hang" (C19: no run fails to terminate)"""
     import signal
@@ -47,6 +47,7 @@ def run(text, args, work, name="t.vhd", deep=False, shuffle=None, repeat=False, 
         signal.alarm(int(timeout))
     T = hooks.set_tracer(hooks.Tracer(toi=False, deep=deep))
     T.deep_ends = deep_ends
+    T.cfg_deep = cfg_deep          # the digest of every rule's configuration around every analysis (expensive: only when the ends differ)
     T.check_viol = True
     T.check_table = True
     T.shuffle = shuffle
@@ -237,7 +238,7 @@ def purity_records(job, nid):
             continue
         if base["impure_ends"] and not base["impure"]:
             # some analysis changed a token attribute: find out which rule (digest around every analysis; slow, rare)
-            slow = run(text, bargs, work, deep=True)
+            slow = run(text, bargs, work, deep=True, cfg_deep=any(w.startswith("configuration of rule") for w in base["impure_ends"]))
             # (a rule that normalises its OWN options while analysing - 'yes' -> True - changes nobody else's verdict: the
             # digest around each analysis leaves the analysing rule's own configuration out)
             own_only = all(w.startswith("configuration of rule") for w in base["impure_ends"]) and not slow["impure"]
